@@ -381,7 +381,8 @@ class _TypeCall(ast.NodeTransformer):
         return node
 
 
-CANON_MODULES = {"numpy": "np", "math": "math", "operator": "operator", "functools": "functools", "itertools": "itertools"}
+CANON_MODULES = {"numpy": "np", "math": "math", "operator": "operator", "functools": "functools", "itertools": "itertools",
+                 "contextlib": "contextlib"}
 
 
 class _ImportCanon(ast.NodeTransformer):
@@ -627,6 +628,23 @@ class _AssertForm(ast.NodeTransformer):
         return node
 
 
+class _SuppressForm(ast.NodeTransformer):
+    """`with contextlib.suppress(E, ..): body`  is  `try: body / except (E, ..): pass`"""
+
+    def visit_With(self, node):
+        self.generic_visit(node)
+        if len(node.items) == 1 and node.items[0].optional_vars is None:
+            c = node.items[0].context_expr
+            if isinstance(c, ast.Call) and isinstance(c.func, ast.Attribute) and c.func.attr == "suppress" \
+                    and isinstance(c.func.value, ast.Name) and c.func.value.id == "contextlib" and c.args and not c.keywords \
+                    and not any(isinstance(a, ast.Starred) for a in c.args):
+                typ = c.args[0] if len(c.args) == 1 else ast.Tuple(elts=list(c.args), ctx=ast.Load())
+                handler = ast.ExceptHandler(type=typ, name=None, body=[ast.Pass()])
+                new = ast.Try(body=node.body, handlers=[handler], orelse=[], finalbody=[])
+                return ast.fix_missing_locations(ast.copy_location(new, node))
+        return node
+
+
 NORMALISER_NOTES = []
 
 
@@ -643,7 +661,8 @@ def desugar_match(tree):
               ("method aliases", lambda t: _AliasInline(t).visit(t)),
               ("match statements", lambda t: _MatchDesugar().visit(t)),
               ("type(x)", lambda t: _TypeCall().visit(t)),
-              ("written-out asserts", lambda t: _AssertForm().visit(t))]
+              ("written-out asserts", lambda t: _AssertForm().visit(t)),
+              ("contextlib.suppress", lambda t: _SuppressForm().visit(t))]
     for label, fn in passes:
         work = _copy.deepcopy(tree)
         try:
